@@ -4,13 +4,24 @@
     used, what Open returned); the model has to reproduce the packet bytes, the arguments
     the implementation passed to Open, and the result. *)
 From Coq Require Import List ZArith Bool String.
-From V Require Import Lib.Corr Lib.Hex Gen.Params PktProt.PktNum PktProt.Protect.
+From V Require Import Lib.Corr Lib.Hex Gen.Params Wire.Varint Wire.Headers PktProt.PktNum PktProt.Protect PktProt.ProtectPack PktProt.ProtectLong PktProt.ChaCha.
 Import ListNotations.
 Open Scope Z_scope.
 
 Inductive case :=
 | ProtCase (long : bool) (hdr payload : string) (pn kp pnLen : Z)
            (seal_ct : string) (sample mask : string) (packet : string)
+| PackCase (long : bool) (tcode kp : Z) (mid : string) (pn largestAcked : Z) (ack frames : string) (extra : Z)
+           (seal_ct sample mask : string) (pnLen : Z) (packet : string)
+    (* the packer's call site: pn length chosen by sentPacketHandler.PeekPacketNumber, packet built by
+       appendShortHeaderPacket / appendLongHeaderPacket (padding, ACK | padding | frames) *)
+| LongDgCase (ty v : Z) (src dst tok : string) (pn largestAcked : Z) (ack frames : string) (extra : Z)
+             (seal_ct sample mask : string) (packet rest : string)
+             (hdrLen pktLen length : Z)
+    (* a long-header packet built by getLongHeader + appendLongHeaderPacket, followed by coalesced
+       bytes, cut out again by wire.ParsePacket: header fields, offset of the packet number, packet length *)
+| ChaChaMaskCase (hpkey sample mask : string)
+    (* the raw header-protection mask of the ChaCha20 suite, recomputed by the Gallina ChaCha20 *)
 | UnprotCase (long : bool) (hdrLen largest : Z) (data : string)
              (sample mask : string)                                  (* DecryptHeader oracle; "" if not called *)
              (open_call : option (Z * Z * string * string))          (* pn, kp, ad, ciphertext handed to Open *)
@@ -29,6 +40,9 @@ Definition cls_of (r : ures) : Z :=
 
 Inductive obs :=
 | ProtObs (packet : list Z)
+| PackObs (pnLen : Z) (packet : list Z)
+| LongDgObs (packet : option (list Z)) (parsed : Z * option header * list Z * list Z)
+| MaskObs (mask : list Z)
 | UnprotObs (call : option (Z * Z * list Z * list Z)) (cls : Z) (res : option (Z * Z * Z * Z * list Z)).
 
 Definition model_obs (c : case) : obs :=
@@ -37,6 +51,20 @@ Definition model_obs (c : case) : obs :=
     let seal := fun pn' kp' ad pt =>
       if (pn' =? pn) && (kp' =? kp) && zeqb_list ad (hx hdr) && zeqb_list pt (hx payload) then hx ct else [] in
     ProtObs (protect seal (mask_tab (hx sample) (hx mask)) long (hx hdr) (hx payload) pn kp (Z.to_nat pnLen))
+  | PackCase long tcode kp mid pn la ack frames extra ct sample mask _ _ =>
+    let n := Z.to_nat (lenForHeader pn la) in
+    let hdr := mk_header (pack_first long tcode kp n) (hx mid) n pn in
+    let payload := packet_payload (hx ack) (pad_len n (List.length (hx ack) + List.length (hx frames)) (Z.to_nat extra)) (hx frames) in
+    let kp' := if long then 0 else kp in
+    let seal := fun pn' k' ad pt =>
+      if (pn' =? pn) && (k' =? kp') && zeqb_list ad hdr && zeqb_list pt payload then hx ct else [] in
+    PackObs (lenForHeader pn la)
+            (pack seal (mask_tab (hx sample) (hx mask)) long tcode kp (hx mid) pn la (hx ack) (hx frames) (Z.to_nat extra))
+  | LongDgCase ty v src dst tok pn la ack frames extra ct sample mask packet rest _ _ _ =>
+    let seal := fun (_ _ : Z) (_ _ : list Z) => hx ct in
+    LongDgObs (pack_long_datagram seal (mask_tab (hx sample) (hx mask)) ty v (hx src) (hx dst) (hx tok) pn la (hx ack) (hx frames) (Z.to_nat extra))
+              (parse_packet (hx packet ++ hx rest))
+  | ChaChaMaskCase k sample _ => MaskObs (chacha_mask (hx k) (hx sample))
   | UnprotCase long hdrLen largest data sample mask _ open_res _ _ =>
     match unprotect_pre (mask_tab (hx sample) (hx mask)) long (Z.to_nat hdrLen) largest (hx data) with
     | inl e => UnprotObs None (cls_of e) None
@@ -50,6 +78,13 @@ Definition model_obs (c : case) : obs :=
 Definition check_case (c : case) : bool :=
   match c, model_obs c with
   | ProtCase _ _ _ _ _ _ _ _ _ packet, ProtObs p => zeqb_list p (hx packet)
+  | PackCase _ _ _ _ _ _ _ _ _ _ _ _ pnLen packet, PackObs l p => (l =? pnLen) && zeqb_list p (hx packet)
+  | LongDgCase ty v src dst tok _ _ _ _ _ _ _ _ packet rest hdrLen pktLen len, LongDgObs (Some p) (0, Some h, pkt, r) =>
+    zeqb_list p (hx packet) && zeqb_list pkt (hx packet) && zeqb_list r (hx rest) &&
+    (hType h =? ty) && (hVersion h =? v) && zeqb_list (hSrc h) (hx src) && zeqb_list (hDst h) (hx dst) &&
+    zeqb_list (hToken h) (if ty =? H_PacketTypeInitial then hx tok else []) &&
+    (hParsedLen h =? hdrLen) && (zlen pkt =? pktLen) && (hLength h =? len)
+  | ChaChaMaskCase _ _ mask, MaskObs m => zeqb_list m (hx mask)
   | UnprotCase _ _ _ _ _ _ call _ cls res, UnprotObs call' cls' res' =>
     (cls =? cls') &&
     match call, call' with
